@@ -178,7 +178,7 @@ func goroutines() []gor {
 func parkedSenders() map[int]string {
 	res := map[int]string{}
 	for _, g := range goroutines() {
-		if g.state == "chan send" && g.fn != "" {
+		if g.state == "chan send" && strings.HasPrefix(g.top, vouchPath) {
 			res[g.id] = g.fn
 		}
 	}
